@@ -22,7 +22,7 @@ func init() {
 			"R01-alloc — the number-boxing allocator only appends to its page and replaces it by a fresh one, preloads is written only by init; R01-emit — every opcode the compiler emits is emitted through the encoder matching its declared format and every opcode has an emission site. " +
 			"R01-assign — in the compiler every shortcut that stores into an assignment target, or leaves a local to be read in place, while right-hand sides are still being compiled is guarded by 'exactly one target' (multiple assignment evaluates everything before any store); R01-operands — in every VM handler all RK operand reads precede the handler's first register write (an operand may live in the destination register, or in a register the handler also writes); R01-threading — the jump-threading pass, which patches in place in ascending pc order and follows chains through the live code, interprets an sBx as a label only for a word at or after the current pc (earlier words are already patched and hold distances); R01-peephole — a peephole that removes or retargets the last emitted MOVE/LOADK tests that word's destination register as well as its opcode (the last word may be a capture pseudo-instruction of a CLOSURE or the load of another register); R01-callregs — a call is laid out in fresh registers starting at the caller-supplied temporary (never in the register of an existing local, which the callee expression or the arguments may still read), and the explist of a generic for is assigned to exactly the three hidden variables; R01-kmv — an operand obtained through constant propagation (it may be an RK-encoded constant index) is emitted only in operand positions that the VM handler of that opcode reads with rkValue/rkString, never in an A field or a plain register operand; R01-constructor — in a table constructor a SETLIST is open-ended (B = 0) only when the last field is a positional call or '...', and the count of items waiting in registers is reset by every SETLIST, so a keyed field cannot trigger a second store of a batch; a single value taken from '...' into an existing local goes through a temporary (VARARG moves the stack top); R15-mathmap luaModulo shape shared (the % operator's sign adjustment). R07-parallel shared — every store of a code word is paired with the store of its line ('on which line it fails'). NOT decided: that the instruction sequence emitted for a statement/expression computes the Lua result (register allocation, jump threading, coercions, evaluation order) — a statement about run-time values.",
 		Trusted: []string{"opcode semantics are those of the handler bodies; only the encoding/decoding agreement is checked"},
-		Rules:   []func(*Ctx){ruleSetlistOffsetAfterBatchRead, ruleVarargTempGuard, ruleCloseA, rulePatchPairing, ruleAssignResultsByPosition, ruleOptable, ruleLayout, ruleDecode, ruleCompilerDecodes, ruleFold, ruleAlloc, ruleEmit, ruleOperandOrder, ruleModuloSign, ruleAssign, ruleThreading, rulePeephole, ruleCallFrameRegs, ruleKmvFlow, ruleConstructor, ruleForCoercion, ruleCaptureWords, ruleParallel, ruleConstSign, ruleLogicalStore, ruleForContinuesUnlessNil, ruleScopeExitCompiler, ruleFlagTime, ruleSetlistBatchNumber, ruleOneReader},
+		Rules:   []func(*Ctx){ruleLoadNilRangeOwnedByTheStore, ruleForLoopCoversZeroStep, ruleSetlistOffsetAfterBatchRead, ruleVarargTempGuard, ruleCloseA, rulePatchPairing, ruleAssignResultsByPosition, ruleOptable, ruleLayout, ruleDecode, ruleCompilerDecodes, ruleFold, ruleAlloc, ruleEmit, ruleOperandOrder, ruleModuloSign, ruleAssign, ruleThreading, rulePeephole, ruleCallFrameRegs, ruleKmvFlow, ruleConstructor, ruleForCoercion, ruleCaptureWords, ruleParallel, ruleConstSign, ruleLogicalStore, ruleForContinuesUnlessNil, ruleScopeExitCompiler, ruleFlagTime, ruleSetlistBatchNumber, ruleOneReader},
 	})
 }
 
